@@ -71,6 +71,25 @@ class World:
             self.subs.append((name, c))
             self.kind[name] = "custom"
             self.obj[name] = c
+        # bare subsystems that belong to no envelope (only their own entry point exists)
+        from photon_weave.state.fock import Fock
+        from photon_weave.state.polarization import Polarization
+
+        for i, b in enumerate(spec.get("bare", [])):
+            name = f"b{i}"
+            if b["kind"] == "fock":
+                o = Fock()
+                if b.get("fdim"):
+                    o.dimensions = int(b["fdim"])
+                if b.get("fock", 0):
+                    o.state = int(b["fock"])
+            else:
+                o = Polarization(PolarizationLabel(b.get("pol", "H")))
+            self.bare = getattr(self, "bare", {})
+            self.bare[name] = o
+            self.subs.append((name, o))
+            self.kind[name] = b["kind"]
+            self.obj[name] = o
         for i, members in enumerate(spec.get("ces", [])):
             self.new_ce(members)
 
